@@ -129,8 +129,13 @@ class SymArray:
             return NotImplemented
         self_live = self
         self = self._frozen()
+        if isinstance(o, _np_mod.ndarray) and o.ndim in (1, 2) and o.size <= 8:
+            o = small_concrete(o)
         if isinstance(o, SymArray):
             o = o._frozen()
+            if self.ndim == o.ndim == 2 and o.shape[0].concrete() == 1 and self.shape[0].concrete() != 1:
+                _shape_ob(self.shape[1:], o.shape[1:])
+                return SymArray(self.shape, lambda i, k: f(self.at(i, k), o.at(SI(0), k)), self.guard)      # (n,m) op (1,m): numpy row broadcasting
             if self.ndim == o.ndim == 2 and o.shape[1].concrete() == 1 and self.shape[1].concrete() != 1:
                 return SymArray(self.shape, lambda i, k: f(self.at(i, k), o.at(i, SI(0))), self.guard)      # (n,m) op (n,1)
             if self.ndim == o.ndim:
@@ -631,6 +636,26 @@ def vlen(x):
 
 
 # ----------------------------------------------------------------------------- sparse matrices
+
+
+import numpy as _np_mod  # noqa: E402
+
+
+def small_concrete(a):
+    """a small concrete numpy array (possibly of symbolic scalars, e.g. np.array([[dx, dy]])) as a symbolic array: element selection by
+    nested if-then-else over the (few) concrete positions"""
+    a = _np_mod.asarray(a, dtype=object)
+    shape = tuple(SI(int(n)) for n in a.shape)
+    flat = [(idx, v) for idx, v in _np_mod.ndenumerate(a)]
+
+    def fn(*ix):
+        out = flat[-1][1]
+        out = out if isinstance(out, (SR, SC, SI)) else SR.lift(out)
+        for idx, v in reversed(flat[:-1]):
+            cond = z3.And(*[i.e == int(j) for i, j in zip(ix, idx)])
+            out = ite(cond, v if isinstance(v, (SR, SC, SI)) else SR.lift(v), out)
+        return out
+    return SymArray(shape, fn)
 
 
 class SparseBuf:
